@@ -23,7 +23,7 @@ Do not weaken or delete tests, and do not add cfg flags or dead code: it must be
 
 DELIVERABLES (create the directory {wt}/out/):
   a. `{wt}/out/patch.diff` — `git diff` of your change against HEAD (source change only, without the demonstration).
-  b. A demonstration that FAILS with your change and PASSES on the unchanged code: preferably a self-contained Rust integration test file `{wt}/out/demo.rs` that can be dropped into `ciphercore-base/tests/demo.rs` and run with `cargo test -p ciphercore-base --offline --test demo -j4` (it may only use the public API of ciphercore_base), or alternatively a `#[cfg(test)]` unit test given as a separate diff `{wt}/out/demo_test.diff`. Verify BOTH directions yourself (with the change: fails; after `git stash`/reverting the source change: passes) and record the commands and outputs.
+  b. A demonstration that FAILS with your change and PASSES on the unchanged code: preferably a self-contained Rust integration test file `{wt}/out/demo.rs` that can be dropped into `ciphercore-base/tests/demo.rs` and run with `cargo test -p ciphercore-base --offline --test demo -j4` (it may only use the public API of ciphercore_base), or alternatively a `#[cfg(test)]` unit test given as a separate diff `{wt}/out/demo_test.diff`. Verify BOTH directions yourself (with the change: fails; after reverting the source change with `git diff > /tmp/my.diff; git apply -R /tmp/my.diff` (and re-applying it afterwards with `git apply /tmp/my.diff`): passes. Do NOT use `git stash`: the stash is shared between all worktrees of this repository and other people are working in sibling worktrees) and record the commands and outputs.
   c. `{wt}/out/notes.md` — which sentence of the property is broken, what exactly is needed for the breakage to manifest (inputs / sequence / configuration), why existing tests do not notice, and the test commands you ran with their results.
 When you are done, leave the worktree with your source change APPLIED (uncommitted) and the demonstration file only under out/. Finally delete the build output to save disk: `rm -rf {wt}/target`.
 Keep your final answer short (<= 25 lines): the idea of the change, what it needs to manifest, and the verification you performed.""")
